@@ -224,8 +224,11 @@ theorem scope_increasing_aux (T : Tables) (R : RenderCfg) (B : List Frame) :
     `tabindex` at depth `d` — accepted or rejected `set/update/[]=`, nested blocks (which may set
     and advance their own counters), tag calls that raise — the values handed out by the tag
     calls made at depth `d` are strictly increasing and all ≥ `n`.
-    (`n > 0`: a non-positive counter is rendered unchanged by every call — `tabindex="-1"` keeps
-    its HTML meaning, `0` disables — and is outside "handed out in increasing order".) -/
+    (`n > 0`: the theorem covers the positive counters.  `0` disables the numbering.  A NEGATIVE
+    counter is handed out unchanged by every call and never advances — the "stop numbers" pinned by
+    tests/markup/test_transforms.py::test_tabindex_stop_numbers — so two calls of one scope get the
+    same value: under the plain reading of "handed out in increasing order" that is a violation,
+    recorded as KF-C19-b (oracle clause `tabindex-increasing`), not something this theorem excuses.) -/
 theorem scope_tabindex_increasing (T : Tables) (R : RenderCfg) (ops : List Op) (g : Gen) (n : Int)
     (hc : counter g = some n) (hn : n > 0)
     (hstay : staysAbove T R g.ctx.depth g ops = true) (hnw : noTabWriteAt T R g.ctx.depth g ops = true) :
